@@ -24,19 +24,21 @@ pub mod logger_handle {
             SelV { plain: self.with_plain_files, rcur: self.with_r_current, comp: self.with_compressed_files,
                    custom: match self.with_configured_current { Some(s) => Some(s@), None => None } }
         }
-    // `mut self` builder methods are outside Verus: contracts assumed here, proved by Kani harness selector_builders (kani/selector.rs)
+    // `mut self` builder methods: rule R10b (receiver `self`, body works on `let mut self_ = self;`)
     //@ fn src/logger_handle.rs impl LogfileSelector / fn none
     //@   ret r
     //@   props C16
     //@   ens[LogfileSelector::none.post] r.sv() == (SelV { plain: false, rcur: false, comp: false, custom: None })
-    //@ sig src/logger_handle.rs impl LogfileSelector / fn with_r_current
+    //@ fn src/logger_handle.rs impl LogfileSelector / fn with_r_current
     //@   ret r
-    //@   rule R10 *
-    //@   ens r.sv() == (SelV { rcur: true, ..self.sv() })
-    //@ sig src/logger_handle.rs impl LogfileSelector / fn with_compressed_files
+    //@   props C16
+    //@   rule R10b 1
+    //@   ens[LogfileSelector::with_r_current.post] r.sv() == (SelV { rcur: true, ..self.sv() })
+    //@ fn src/logger_handle.rs impl LogfileSelector / fn with_compressed_files
     //@   ret r
-    //@   rule R10 *
-    //@   ens r.sv() == (SelV { comp: true, ..self.sv() })
+    //@   props C16,C07
+    //@   rule R10b 1
+    //@   ens[LogfileSelector::with_compressed_files.post] r.sv() == (SelV { comp: true, ..self.sv() })
     }
     /// bridge (proved here, where `sv` is visible): the view in terms of the crate-visible fields
     pub(crate) broadcast proof fn lemma_sv(s: &LogfileSelector)
